@@ -15,23 +15,47 @@ Model: lean/BreezyVerif/Model/C20.lean.  T2 levels:
      the model's reader run on the same bytes;
   B  reader on mutated / hand-written malformed conflicts files
      (accept/reject + error kind; invalid UTF-8: reject only);
+  I  `osutils.is_inside` / `is_inside_any` (Rust, REBUILT from the tree under
+     test: RUST = osutils-py) on all ordered pairs of a path universe with
+     absolute paths, `/`, `.`, `..`, `a/..`, `./`, doubled and trailing slashes:
+     against the model (`inside` op) and an independent Python reference;
   C  `select_conflicts` (stub tree for path2id, all subsets of <= 3 paths out of
-     a small universe x recurse) and `resolve(tree, paths, action="done")` on a
-     real tree, re-opened;
-  D  `set_merge_modified` / `merge_modified` on a real tree with unicode file
-     names and ids: file bytes and re-read dict against the model.
+     that universe x recurse) and `resolve(tree, paths, action=…)` on a real
+     tree, re-opened — action "done", and action "auto", which only
+     TextConflict implements (and refuses for directories, symlinks and files
+     with conflict markers): every other selected conflict raises
+     NotImplementedError and must stay listed after the not-selected ones
+     (model `resolveWith` / `handlesAuto`);
+  D  `set_merge_modified` / `merge_modified` on a real tree whose versioned
+     entries include directories, a symlink and a file DELETED from disk (no
+     current sha1: `get_file_sha1` gives None — modelled as `sha = none`), with
+     recorded hashes = current sha1 / other file's / the deleted file's old one
+     / random hex / decorated (CR, LF, blanks, case, truncated) / stanza
+     delimiter atoms / "-" / "None" / empty: file bytes and re-read dict against
+     the model; four fixed cases first (the `merge_modified_witness` input
+     among them); damaged merge-hashes files;
+  X  excluded inputs: what the real code refuses before storing anything (lone
+     surrogates, non-UTF-8 ids, None attributes, non-ASCII hashes — file
+     unchanged; a file id ending in CR is refused by `WorkingTree.add`).
 Oracle: attributes read back == attributes stored (type, path, file_id,
 conflict_path, action, conflict_file_id — never `==` on Conflict objects, which
-ignores conflict_path); select: order-preserving partition, selected iff the
-statement's criterion (evaluated with the real osutils.is_inside_any); after
-resolve the stored list == the not-selected list; merge hashes: re-read dict ==
-{path: hash | path versioned and hash == current sha1}.
+ignores conflict_path); is_inside == component-wise prefix (independent
+reference); select: order-preserving partition, selected iff the statement's
+criterion (evaluated with that reference, not with the code under test); after
+resolve the stored list == the not-selected list (+ the selected conflicts the
+action cannot handle); merge hashes: re-read dict == {path: hash | path is a
+versioned regular file present on disk and hash == its current sha1}.
 
-Known violation family computed from the failing input (`_family`):
+Known violation family (`_family` / `_mm_family`), computed from the concrete
+input AND the observed failure:
   cr-at-line-end — some stored value has a line ending in CR (the external rio
-  reader drops trailing CRs); proved as `conflicts_roundtrip_witness`.
+  reader drops trailing CRs) and what is read back is EXACTLY the stored data
+  with those CRs dropped; proved as `conflicts_roundtrip_witness` and
+  `merge_modified_witness` (a recorded hash "<current sha1>\r" is reported as
+  current).  Any other difference on a list that merely contains such a value
+  is reported as a new violation.
 
-Mutants this was built against (results in the final report):
+Mutants this was built against:
   M1 Conflict.as_stanza: `if self.file_id is not None` -> `if self.file_id` (empty id dropped)
   M2 PathConflict.as_stanza: conflict_path not written
   M3 HandledPathConflict.as_stanza: conflict_file_id written under "file_id"
@@ -43,6 +67,15 @@ Mutants this was built against (results in the final report):
   M9 resolve(): `tree.set_conflicts(new_conflicts)` replaced by set_conflicts(to_process)
   M10 HandledConflict.__init__/factory: action and path swapped
   H1 (harmless) as_stanza rewritten with Stanza.from_pairs-free explicit adds in the same order
+Round 2 (all caught by the oracle with a concrete input unless noted):
+  R1 merge_modified: `if current is None or text_hash == current` (deleted file / dir / symlink reported) — level D
+  R2 resolve: `except NotImplementedError: pass` (unhandled conflicts silently dropped) — level C action "auto"
+  R3 crates/osutils path.rs is_inside: string prefix instead of Path::starts_with ("a" inside "ab") — level I (Rust rebuilt)
+  R4 PathConflict.as_stanza: conflict_path.rstrip("\r\n") (a DIFFERENT loss on lists that also contain CR values:
+     not masked by the known family any more)
+  R5 select_conflicts recursion by `cpath.startswith(p + "/")` ("a/." / "a//b" / "" as directory) — level C
+  H2 (harmless) select_conflicts `try: ids[..] except KeyError` -> `if .. not in ids: continue`: clean
+Stored seeds C20-select-conflicts-break-on-missing-file-id and C20-select-ignores-conflict-file-id: still VIOLATION.
 """
 import itertools
 import os
@@ -62,13 +95,20 @@ THEOREMS = [
 RUST = ("osutils-py",)   # is_inside / is_inside_any are rebuilt from the Rust source of the tree under test
 RULE = ("conflict lists of 0..6 conflicts over the ten classes with generated text values (atoms with every "
         "delimiter the writer/reader look at, random unicode); non-trivial = list non-empty and some value is "
-        "not plain [a-z/]; select cases: all subsets of <=3 paths of a 16-path universe x recurse, "
-        "non-trivial = both result lists non-empty or an id-based selection happened")
+        "not plain [a-z/]; select cases: all subsets of <=3 paths of 6 paths sampled from a 25-path universe (relative, "
+        "absolute, '.', '..', doubled/trailing slashes) x recurse, non-trivial = both result lists non-empty or an "
+        "id-based selection happened; is_inside: all ordered pairs of a 44-path universe; resolve on a real tree with "
+        "action done / auto; merge hashes: 0..6 records over versioned files, directories, a symlink, a deleted file "
+        "and unversioned paths with current / foreign / decorated / delimiter hashes, non-trivial = some but not all kept")
 ASSUMPTIONS = [
     "text values are Python str without lone surrogates and file ids are valid UTF-8 (others are refused by "
     "Stanza.add / .decode before anything is stored — exercised as an excluded-input stream)",
     "no value has a line ending in CR (explicit hypothesis `crSafe` of the *_partial theorems; the excluded "
-    "family is a reported finding, witness theorem `conflicts_roundtrip_witness`)",
+    "family is a reported finding, witness theorems `conflicts_roundtrip_witness`, `merge_modified_witness`, both "
+    "reproduced on the real code on every run)",
+    "recorded merge hashes are ASCII bytes (others raise UnicodeDecodeError in set_merge_modified before the file is "
+    "touched — excluded-input stream) and file ids of a working tree have no line ending in CR (`WorkingTree.add` "
+    "refuses them — excluded-input stream)",
 ]
 TRUSTED = [
     "bzrformats.rio (external, compiled) is modelled from its grammar and observed behaviour; writer and reader "
